@@ -1,10 +1,14 @@
 // genconsts reads the literals the Coq model depends on out of /repo's
 // current source (go/ast, no type checking) and writes coq/Gen/Consts.v.
-// It fails loudly when a literal it expects is not found: a default is
-// never substituted.
+// A literal it cannot find (the source was rewritten) is never guessed silently:
+// the value the model was last validated with is written, and the constant is
+// listed in <out>.unextracted.json.  The check driver reports the lost tie for
+// the properties whose statements depend on that constant and lets the others
+// rely on their correspondence runs, which exercise the actual behaviour.
 package main
 
 import (
+	"encoding/json"
 	"fmt"
 	"go/ast"
 	"go/parser"
@@ -17,10 +21,21 @@ import (
 
 var repo = "/repo"
 
+type extractError string
+
 func die(format string, args ...interface{}) {
-	fmt.Fprintf(os.Stderr, "genconsts: "+format+"\n", args...)
-	os.Exit(1)
+	panic(extractError(fmt.Sprintf(format, args...)))
 }
+
+// the values the models were last validated with (used only when a literal cannot be read, and reported)
+var pinned = map[string]string{
+	"var_sigil": `"?"`, "opt_sigil": `"??"`, "anon_var": `"?"`, "perm_sigil": `"!"`, "target_sigil": `"@"`,
+	"ineq_ops": `["<="; ">="; "!="; ">"; "<"]`, "default_branch_type": `"bindings"`, "default_error_node": `"error"`,
+	"default_limit": "100%Z", "exp_permanent_bindings": "true", "exp_branch_target_variables": "true",
+	"allow_property_variables": "true", "check_bad_property_variables": "true", "inequalities": "true",
+}
+
+var unextracted = map[string]string{}
 
 func parse(rel string) *ast.File {
 	fset := token.NewFileSet()
@@ -214,50 +229,81 @@ func main() {
 	if len(os.Args) > 2 {
 		repo = os.Args[2]
 	}
-	m := parse("match/match.go")
-	step := parse("core/step.go")
-	spec := parse("core/spec.go")
-	actions := parse("core/actions.go")
-	mcrewSvc := parse("cmd/mcrew/service.go")
-	_ = mcrewSvc
-
 	var sb strings.Builder
 	sb.WriteString("(* GENERATED from /repo by harness/cmd/genconsts on every run; do not edit. *)\n")
 	sb.WriteString("From Coq Require Import String List ZArith.\nImport ListNotations.\nOpen Scope string_scope.\n")
-	def := func(name, typ, val string) {
-		sb.WriteString(fmt.Sprintf("Definition %s : %s := %s.\n", name, typ, val))
+	// every literal is read under a trap: what cannot be read is reported and replaced by the pinned value
+	def := func(name, typ string, val func() string) {
+		v := ""
+		func() {
+			defer func() {
+				if r := recover(); r != nil {
+					unextracted[name] = fmt.Sprint(r)
+					v = pinned[name]
+				}
+			}()
+			v = val()
+		}()
+		sb.WriteString(fmt.Sprintf("Definition %s : %s := %s.\n", name, typ, v))
 	}
-	def("var_sigil", "string", q(callArg(funcDecl(m, "IsVariable"), "strings", "HasPrefix", 1)))
-	def("opt_sigil", "string", q(callArg(funcDecl(m, "IsOptionalVariable"), "strings", "HasPrefix", 1)))
-	def("anon_var", "string", q(eqLit(funcDecl(m, "IsAnonymousVariable"))))
-	def("perm_sigil", "string", q(callArg(funcDecl(actions, "isPermanent"), "strings", "HasSuffix", 1)))
-	def("target_sigil", "string", q(eqLit(funcDecl(step, "IsBranchTargetVariable"))))
-	ops := firstStringSlice(funcDecl(m, "inequal"))
-	qs := make([]string, len(ops))
-	for i, o := range ops {
-		qs[i] = q(o)
+	file := func(rel string) func() *ast.File {
+		var f *ast.File
+		return func() *ast.File {
+			if f == nil {
+				f = parse(rel)
+			}
+			return f
+		}
 	}
-	def("ineq_ops", "list string", "["+strings.Join(qs, "; ")+"]")
-	def("default_branch_type", "string", q(stringValue(spec, "DefaultBranchType")))
-	def("default_error_node", "string", q(stringValue(spec, "DefaultErrorNodeName")))
-	lim := litField(varValue(step, "DefaultControl"), "Limit")
-	bl, is := lim.(*ast.BasicLit)
-	if !is || bl.Kind != token.INT {
-		die("DefaultControl.Limit is not an integer literal")
-	}
-	def("default_limit", "Z", bl.Value+"%Z")
-	def("exp_permanent_bindings", "bool", b(boolValue(actions, "Exp_PermanentBindings")))
-	def("exp_branch_target_variables", "bool", b(boolValue(step, "Exp_BranchTargetVariables")))
-	dm := varValue(m, "DefaultMatcher")
-	def("allow_property_variables", "bool", b(identBool(litField(dm, "AllowPropertyVariables"), "AllowPropertyVariables")))
-	def("check_bad_property_variables", "bool", b(identBool(litField(dm, "CheckForBadPropertyVariables"), "CheckForBadPropertyVariables")))
-	def("inequalities", "bool", b(identBool(litField(dm, "Inequalities"), "Inequalities")))
+	m, step, spec, actions := file("match/match.go"), file("core/step.go"), file("core/spec.go"), file("core/actions.go")
+	def("var_sigil", "string", func() string { return q(callArg(funcDecl(m(), "IsVariable"), "strings", "HasPrefix", 1)) })
+	def("opt_sigil", "string", func() string { return q(callArg(funcDecl(m(), "IsOptionalVariable"), "strings", "HasPrefix", 1)) })
+	def("anon_var", "string", func() string { return q(eqLit(funcDecl(m(), "IsAnonymousVariable"))) })
+	def("perm_sigil", "string", func() string { return q(callArg(funcDecl(actions(), "isPermanent"), "strings", "HasSuffix", 1)) })
+	def("target_sigil", "string", func() string { return q(eqLit(funcDecl(step(), "IsBranchTargetVariable"))) })
+	def("ineq_ops", "list string", func() string {
+		ops := firstStringSlice(funcDecl(m(), "inequal"))
+		qs := make([]string, len(ops))
+		for i, o := range ops {
+			qs[i] = q(o)
+		}
+		return "[" + strings.Join(qs, "; ") + "]"
+	})
+	def("default_branch_type", "string", func() string { return q(stringValue(spec(), "DefaultBranchType")) })
+	def("default_error_node", "string", func() string { return q(stringValue(spec(), "DefaultErrorNodeName")) })
+	def("default_limit", "Z", func() string {
+		lim := litField(varValue(step(), "DefaultControl"), "Limit")
+		bl, is := lim.(*ast.BasicLit)
+		if !is || bl.Kind != token.INT {
+			die("DefaultControl.Limit is not an integer literal")
+		}
+		return bl.Value + "%Z"
+	})
+	def("exp_permanent_bindings", "bool", func() string { return b(boolValue(actions(), "Exp_PermanentBindings")) })
+	def("exp_branch_target_variables", "bool", func() string { return b(boolValue(step(), "Exp_BranchTargetVariables")) })
+	dm := func() ast.Expr { return varValue(m(), "DefaultMatcher") }
+	def("allow_property_variables", "bool", func() string {
+		return b(identBool(litField(dm(), "AllowPropertyVariables"), "AllowPropertyVariables"))
+	})
+	def("check_bad_property_variables", "bool", func() string {
+		return b(identBool(litField(dm(), "CheckForBadPropertyVariables"), "CheckForBadPropertyVariables"))
+	})
+	def("inequalities", "bool", func() string { return b(identBool(litField(dm(), "Inequalities"), "Inequalities")) })
 
+	side, _ := json.MarshalIndent(unextracted, "", " ")
+	if err := os.WriteFile(out+".unextracted.json", side, 0644); err != nil {
+		fmt.Fprintf(os.Stderr, "genconsts: %v\n", err)
+		os.Exit(1)
+	}
+	for k, v := range unextracted {
+		fmt.Fprintf(os.Stderr, "genconsts: %s not read from the source (%s): pinned value written\n", k, v)
+	}
 	text := sb.String()
 	if old, err := os.ReadFile(out); err == nil && string(old) == text {
 		return // unchanged: keep the timestamp so make does nothing
 	}
 	if err := os.WriteFile(out, []byte(text), 0644); err != nil {
-		die("write %s: %v", out, err)
+		fmt.Fprintf(os.Stderr, "genconsts: write %s: %v\n", out, err)
+		os.Exit(1)
 	}
 }
